@@ -460,6 +460,7 @@ type FuncContract struct {
 	Pure       bool
 	PureDef    *Clause // closures: result == E
 	PanicsNever bool
+	IterKind   string // goset | syncmap
 	IterBody   bool // closure passed to a Range-style iterator: its requires must be re-established when it returns true
 	Inline     bool
 	Trusted    bool // extern: no body is verified
@@ -741,8 +742,9 @@ func (sp *Spec) ParseContractFile(path, defaultPkg string) error {
 			cur.Pure = true
 		case l == "panics-never":
 			cur.PanicsNever = true
-		case l == "iterator-body":
+		case l == "iterator-body" || strings.HasPrefix(l, "iterator-body "):
 			cur.IterBody = true
+			cur.IterKind = strings.TrimSpace(strings.TrimPrefix(l, "iterator-body"))
 		case l == "inline":
 			cur.Inline = true
 		case l == "opaque":
